@@ -14,6 +14,7 @@
      ExitOK      the process ended normally and answered every operation (C13: no panic, no hang), or was
                  killed by the injected SIGKILL;
      BlameOK     an operation reports an error only if a call of its own or of its batch file failed (C13);
+     AffectedOK  an operation with a failed call of its own or of its batch file does not report success (C13);
      FSOK        the results of link / exclusive open / unlink agree with the model's name table (drift).
    Known deviations (accepted only when the model of the code as found predicts them, printed as "KF"):
      a panic after linkat failed on the write that took a timed batch over its size limit (BugPrecedence),
@@ -25,9 +26,9 @@ MaxFd == 255
 Fds == 0..MaxFd
 
 VARIABLES dir, ino, fdt, l, nn, szlim, acked, inflight, fuzzy, fdsize, fdmem, fdtimed, blame, openFails,
-          expPanic, expHang, okCrash, okProp, okPred, okExit, okBlame, okFS
+          expPanic, expHang, okCrash, okProp, okPred, okExit, okBlame, okAffected, okFS
 tvars == <<dir, ino, fdt, l, nn, szlim, acked, inflight, fuzzy, fdsize, fdmem, fdtimed, blame, openFails,
-           expPanic, expHang, okCrash, okProp, okPred, okExit, okBlame, okFS>>
+           expPanic, expHang, okCrash, okProp, okPred, okExit, okBlame, okAffected, okFS>>
 
 SeqSet(s) == {s[i] : i \in 1..Len(s)}
 CrashSafeNow(D, I, ack) == \A a \in 1..nn : LET r == ReadName(D, I, a) IN r \in {0, 1} /\ (a \in ack => r = 1)
@@ -37,14 +38,14 @@ TraceInit ==
   /\ l = 1 /\ nn = 0 /\ szlim = 0 /\ acked = {} /\ inflight = <<>> /\ fuzzy = {}
   /\ fdsize = [f \in Fds |-> 0] /\ fdmem = [f \in Fds |-> {}] /\ fdtimed = [f \in Fds |-> FALSE]
   /\ blame = {} /\ openFails = 0 /\ expPanic = FALSE /\ expHang = FALSE
-  /\ okCrash = TRUE /\ okProp = TRUE /\ okPred = TRUE /\ okExit = TRUE /\ okBlame = TRUE /\ okFS = TRUE
+  /\ okCrash = TRUE /\ okProp = TRUE /\ okPred = TRUE /\ okExit = TRUE /\ okBlame = TRUE /\ okAffected = TRUE /\ okFS = TRUE
 
 Reset(e) ==
   /\ dir' = [nm \in Names |-> 0] /\ ino' = <<>> /\ fdt' = [f \in Fds |-> 0]
   /\ nn' = e.n /\ szlim' = e.szlim /\ acked' = {} /\ inflight' = <<>> /\ fuzzy' = {}
   /\ fdsize' = [f \in Fds |-> 0] /\ fdmem' = [f \in Fds |-> {}] /\ fdtimed' = [f \in Fds |-> FALSE]
   /\ blame' = {} /\ openFails' = 0 /\ expPanic' = FALSE /\ expHang' = FALSE
-  /\ okCrash' = TRUE /\ okProp' = TRUE /\ okPred' = TRUE /\ okExit' = TRUE /\ okBlame' = TRUE /\ okFS' = (e.n <= NA)
+  /\ okCrash' = TRUE /\ okProp' = TRUE /\ okPred' = TRUE /\ okExit' = TRUE /\ okBlame' = TRUE /\ okAffected' = TRUE /\ okFS' = (e.n <= NA)
 
 PutInFlight == \E i \in 1..Len(inflight) : inflight[i].k = "put"
 BatchInFlight == \E i \in 1..Len(inflight) : inflight[i].k = "batch"
@@ -106,13 +107,13 @@ Sys(e) ==
             /\ fdt' = IF unknown THEN fdt ELSE [fdt EXCEPT ![e.fd] = 0]
             /\ blame' = IF failed THEN blame \cup fdmem[e.fd] ELSE blame
             /\ UNCHANGED <<dir, ino, fuzzy, fdsize, fdmem, fdtimed, openFails, expPanic, expHang, okFS>>
-  /\ UNCHANGED <<nn, szlim, acked, inflight, okProp, okPred, okExit, okBlame>>
+  /\ UNCHANGED <<nn, szlim, acked, inflight, okProp, okPred, okExit, okBlame, okAffected>>
 
 Begin(e) ==
   /\ inflight' = Append(inflight, [k |-> e.k, as |-> e.as])
   /\ acked' = IF e.k = "del" THEN acked \ SeqSet(e.as) ELSE acked
   /\ UNCHANGED <<dir, ino, fdt, nn, szlim, fuzzy, fdsize, fdmem, fdtimed, blame, openFails, expPanic, expHang,
-                 okProp, okPred, okExit, okBlame, okFS>>
+                 okProp, okPred, okExit, okBlame, okAffected, okFS>>
 
 Result(e) ==
   LET mine == {i \in 1..Len(inflight) : inflight[i].k = e.k /\ inflight[i].as = e.as}
@@ -122,11 +123,14 @@ Result(e) ==
                  ELSE LET i == CHOOSE i \in mine : TRUE IN [j \in 1..(Len(inflight) - 1) |-> IF j < i THEN inflight[j] ELSE inflight[j + 1]]
   /\ acked' = IF e.r = "ok" /\ e.k # "del" THEN acked \cup SeqSet(e.as) ELSE acked
   /\ okExit' = (okExit /\ mine # {})
+  \* an affected operation (a call of its own or of its batch file failed) must not report success
+  /\ okAffected' = (okAffected /\ (e.r = "ok" => ~blamed))
+  /\ blame' = blame \ SeqSet(e.as)
   /\ IF e.r = "err" /\ ~blamed
        THEN /\ okBlame' = (okBlame /\ openFails > 0)
             /\ openFails' = IF openFails > 0 THEN openFails - 1 ELSE 0
        ELSE UNCHANGED <<okBlame, openFails>>
-  /\ UNCHANGED <<dir, ino, fdt, nn, szlim, fuzzy, fdsize, fdmem, fdtimed, blame, expPanic, expHang, okProp, okPred, okFS>>
+  /\ UNCHANGED <<dir, ino, fdt, nn, szlim, fuzzy, fdsize, fdmem, fdtimed, expPanic, expHang, okProp, okPred, okFS>>
 
 Exit(e) ==
   /\ okExit' = /\ okExit
@@ -137,7 +141,7 @@ Exit(e) ==
                     [] OTHER -> FALSE
   /\ fdt' = [f \in Fds |-> 0]
   /\ UNCHANGED <<dir, ino, nn, szlim, acked, inflight, fuzzy, fdsize, fdmem, fdtimed, blame, openFails, expPanic, expHang,
-                 okProp, okPred, okBlame, okFS>>
+                 okProp, okPred, okBlame, okAffected, okFS>>
 
 PassOK(p, ack) ==      \* one read-back pass satisfies the property
   /\ Len(p.res) = nn /\ Len(p.it) = nn /\ Len(p.ita) = nn
@@ -150,7 +154,7 @@ Verify(e) ==
   /\ okPred' = \A a \in (1..nn) \ fuzzy : e.before.res[a] = ReadName(dir, ino, a)
   /\ dir' = CleanTmpFS(dir)
   /\ UNCHANGED <<ino, fdt, nn, szlim, acked, inflight, fuzzy, fdsize, fdmem, fdtimed, blame, openFails, expPanic, expHang,
-                 okExit, okBlame, okFS>>
+                 okExit, okBlame, okAffected, okFS>>
 
 TraceNext ==
   /\ l <= Len(Trace)
@@ -170,6 +174,7 @@ CrashSafeT == okCrash
 PropOK == okProp
 ExitOK == okExit
 BlameOK == okBlame
+AffectedOK == okAffected
 PredOK == okPred
 FSOK == okFS
 =============================================================================
